@@ -1051,7 +1051,8 @@ const char *flatcc_json_parser_union(flatcc_json_parser_t *ctx,
         --f->union_count;
         buf = union_parser(ctx, buf, end, e->type, &uref.value);
         if (buf != end) {
-            if (flatcc_builder_table_add_union(ctx->ctx, id, uref)) {
+            /* A member of a type this schema does not know was skipped (skip_unknown): the union stays NONE. */
+            if (uref.value != 0 && flatcc_builder_table_add_union(ctx->ctx, id, uref)) {
                 return flatcc_json_parser_set_error(ctx, buf, end, flatcc_json_parser_error_duplicate);
             }
         }
@@ -1104,7 +1105,8 @@ const char *flatcc_json_parser_union_type(flatcc_json_parser_t *ctx,
     if (end == union_parser(ctx, e->backtrace, end, e->type, &uref.value)) {
         return end;
     }
-    if (flatcc_builder_table_add_union(ctx->ctx, id, uref)) {
+    /* A member of a type this schema does not know was skipped (skip_unknown): the union stays NONE. */
+    if (uref.value != 0 && flatcc_builder_table_add_union(ctx->ctx, id, uref)) {
         return flatcc_json_parser_set_error(ctx, buf, end, flatcc_json_parser_error_duplicate);
     }
     ctx->line = line;
